@@ -9,7 +9,7 @@ THEOREMS = [("Sylvia.Thm.C03", "C03." + t) for t in
            [("Sylvia.Thm.C03Domain", "C03." + t) for t in ["wrapper_iff_on_domain", "wrapper_accepts_iff_some_part", "inDomainB_sound"]] + \
            [("Sylvia.Thm.C05Gen", "C05.parts_faithful_closed"), ("Sylvia.Thm.Obl.Published", "Obl.published_rule_is_wire_rule"),
             ("Sylvia.Lemmas.ValuePass", "Sylvia.Serde.normalize_canon"), ("Sylvia.Lemmas.ValuePass", "Sylvia.Serde.decodeFields_sorted")] + \
-           [("Sylvia.Thm.Obl.Wrapper", "Obl.wrapper_forms"), ("Sylvia.Thm.Obl.Tables", "Obl.extraction_complete")]
+           [("Sylvia.Thm.Obl.Wrapper", "Obl.wrapper_forms"), ("Sylvia.Thm.Obl.Complete.C03", "Obl.extraction_complete_C03")]
 
 
 def build_ops(ctx, progs):
